@@ -30,8 +30,50 @@ def check(cond, tag, msg="", data=None):
         raise Violation(tag, msg, data)
 
 
+# Call-form variation. The documented API (parameter names and order at the pinned commit, vf/api_names.json) allows every argument after
+# the first to be passed by position or by keyword. Which of the two is used for the trailing arguments of each library call is derived
+# from a per-case number (set by the runner from the case digest), so both forms - and mixtures - occur for every function over a run.
+import json as _json
+import os as _os
+_API = _json.load(open(_os.path.join(_os.path.dirname(_os.path.abspath(__file__)), "api_names.json")))
+_CALLFORM = [0]
+
+
+def set_callform(n):
+    _CALLFORM[0] = int(n)
+
+
+def _np_floats(fn, a, k, cf):
+    """one case in three: every plain Python float handed to a library function becomes the equal numpy.float64 (a float subclass - what an
+    element of an array, np.linspace or a numpy reduction is); the values are identical, so is everything the properties promise"""
+    if cf % 3 or not (getattr(fn, "__module__", "") or "").startswith("opticomlib"):
+        return a, k
+    import numpy as _np
+    return tuple(_np.float64(v) if type(v) is float else v for v in a), {n: (_np.float64(v) if type(v) is float else v) for n, v in k.items()}
+
+
+def _reform(fn, a, k):
+    cf = _CALLFORM[0]
+    if cf:
+        a, k = _np_floats(fn, a, k, cf)
+    if not cf or len(a) < 2:
+        return a, k
+    mod = getattr(fn, "__module__", "") or ""
+    names = _API.get(f"{mod.split('.')[-1]}.{getattr(fn, '__name__', '')}")
+    if not names or len(a) > len(names):
+        return a, k
+    keep = 1 + (cf + len(a) * 7 + len(names)) % len(a)          # number of leading arguments left positional (1 .. len(a))
+    if keep == len(a) or any(nm in k for nm in names[keep:len(a)]):
+        return a, k
+    k = dict(k)
+    for nm, v in zip(names[keep:len(a)], a[keep:]):
+        k[nm] = v
+    return a[:keep], k
+
+
 def lib(fn, *a, **k):
     """Call into the code under test where the property says the call must succeed."""
+    a, k = _reform(fn, a, k)
     try:
         return fn(*a, **k)
     except (Violation, CaseTimeout):
@@ -45,6 +87,7 @@ def lib(fn, *a, **k):
 def raises(exc, fn, *a, tag=None, **k):
     """The property says this call is rejected with `exc` (a class or tuple)."""
     name = getattr(fn, "__name__", str(fn))
+    a, k = _reform(fn, a, k)
     try:
         r = fn(*a, **k)
     except (Violation, CaseTimeout):
